@@ -2,6 +2,7 @@ CONSTANTS
   Mode = "pregel"
   N = 3
   MaxEdges = 9
+  MaxBr = 0
   FailKinds = {"err"}
   AllowDangling = FALSE
   Runs = 2
